@@ -68,6 +68,13 @@ def cases(tier, seed):
         for ul in range(1, 65):
             for ml in ((7, 8, 10, 16, 20, 26, 38, 70, 100) if not thorough else (7, 8, 9, 10, 11, 13, 16, 20, 26, 32, 38, 40, 70, 100, 128)):
                 yield {'cls': name, 'maxlen': ml, 'dslen': 0 if ul % 2 else 5, 'pc': 5, 'uidlen': ul}
+    # 3b. the same message object sent twice with the data set changed in between
+    for name in ('CStoreRQMessage', 'CFindRSPMessage', 'NEventReportRQMessage'):
+        for ml in (7, 20, 64, 16384):
+            for n in (0, 1, ml - 6, 2 * (ml - 6) + 1 if ml < 100 else 50):
+                for n2 in (0, 1, ml - 5 if ml < 100 else 9):
+                    if n != n2:
+                        yield {'cls': name, 'maxlen': ml, 'dslen': n, 'pc': 7, 'resend': n2}
     # 4. context ids
     for pc in range(1, 256, 2):
         for ml, n in ((7, 3), (20, 29), (16384, 100)):
@@ -109,6 +116,17 @@ def _run(case, source, tmpdir):
         assoc = asceprovider.Association(stubs.FakeAE(), None, 65536 if case['maxlen'] != 65536 else 16384)
         assoc.max_pdu_length = case['maxlen']
         assoc.send(msg, case['pc'])
+        if 'resend' in case:
+            # what the C-FIND / C-MOVE providers do: the same object again with another (or no) data set
+            n2 = case['resend']
+            raw = _data(n2, 1)
+            if n2 == 0:
+                msg.data_set = None
+            elif source == 'bytes':
+                msg.data_set = raw
+            else:
+                msg.data_set = io.BytesIO(raw)
+            assoc.send(msg, case['pc'])
         pdus = assoc.dul.sent[-1]
     return msg, raw, pdus
 
@@ -122,7 +140,11 @@ def run_case(case):
     tmpdir = os.environ.get('VP_TMP') or tempfile.gettempdir()
     seqs = {}
     key = None
-    for source in (('bytes', 'bytesio', 'file', 'bytesio-offset', 'file-offset') if case['dslen'] else ('bytes',)):
+    sources = ('bytes', 'bytesio', 'file', 'bytesio-offset', 'file-offset') if case['dslen'] else ('bytes',)
+    if 'resend' in case:
+        sources = ('bytes', 'bytesio')
+    dslen_eff = case.get('resend', case['dslen'])
+    for source in sources:
         try:
             msg, raw, pdus = _run(case, source, tmpdir)
         except Exception as exc:
@@ -132,7 +154,7 @@ def run_case(case):
         seqs[source] = enc
         cmd, data, flags = msggen.collect(pdus)
         hdrs = [f[1] for f in flags]
-        where = 'maxlen=%d dslen=%d source=%s pc=%d' % (ml, case['dslen'], source, pc)
+        where = 'maxlen=%d dslen=%d source=%s pc=%d%s' % (ml, dslen_eff, source, pc, ' (second send of the same object, first had %d data bytes)' % case['dslen'] if 'resend' in case else '')
         for p in pdus:
             if len(p.data_value_items) != 1:
                 viol.append((sig + ':pdv-count', '%d PDVs in one P-DATA-TF (%s)' % (len(p.data_value_items), where)))
@@ -148,12 +170,12 @@ def run_case(case):
         ok_order = hdrs[:ncmd] == [1] * (ncmd - 1) + [3] and hdrs[ncmd:] == ([0] * (ndat - 1) + [2] if ndat else [])
         if ncmd + ndat != len(hdrs) or not ok_order or ncmd == 0:
             viol.append((sig + ':flags', 'control headers %r are not 1*,3,0*,2 (%s)' % (hdrs[:12] + (['...'] if len(hdrs) > 12 else []), where)))
-        if bool(ndat) != bool(case['dslen']):
-            viol.append((sig + ':data-presence', '%d data fragments for a data set of %d bytes (%s)' % (ndat, case['dslen'], where)))
+        if bool(ndat) != bool(dslen_eff):
+            viol.append((sig + ':data-presence', '%d data fragments for a data set of %d bytes (%s)' % (ndat, dslen_eff, where)))
         if data != raw:
             viol.append((sig + ':data-content', 'concatenated data fragments (%d bytes) differ from the supplied data set (%d bytes) (%s)'
                          % (len(data), len(raw), where)))
-        probs = ref_cmd.well_formed(cmd, ref_cmd.COMMAND_FIELD[name], has_dataset=bool(case['dslen']))
+        probs = ref_cmd.well_formed(cmd, ref_cmd.COMMAND_FIELD[name], has_dataset=bool(dslen_eff))
         if probs:
             viol.append((sig + ':command-content', 'reassembled command set malformed: %s (%s)' % (probs[0], where)))
         if cmd != dsutils.encode(msg.command_set, True, True):
